@@ -152,12 +152,17 @@ def gen_literals(rng, thorough):
     # hex strings
     for s in ['0x1.8p3', '0x.8p1', '-0x.8p1', '0x.fp0', '0xffp-4', '-0x0p0', '0x0.0p5', '0x1p+10', '0x1.fffffffffffffp1023', '0x1p-1074', '0x1', '0xabc.def',
               ' 0x1p3 ', '0x1.e', '0x1.ep1', '+0x1.8p-3', '0x0123456789abcdef0123456789abcdef.fedcba9876543210p-200',
+              '-0x1p-1080', '0x1p-1100', '-0x1.8p-1075', '0x1p+1030', '-0x1.8p2000', '0x0.0000001p-1070', '-0x0.00p-2000', '0x1p1024',
+              '-0x1.fffffffffffff8p1023', '0x3p-1076',
               '0X1p3', '0x1P3', '1.8p3', '0x', '0x1p', '0x1.p3', '0x-1p3', 'abc', '', '0x1p3.5', '0x 1', '0xg', '-+0x1', '0x1p--3', '0x1e5', '0x.p1']:
         out.append(lit_hex(s))
     for _ in range(10 * nrep):
         ip = ''.join(rng.choice('0123456789abcdef') for _ in range(rng.randint(0, 20)))
         fp_ = ''.join(rng.choice('0123456789abcdef') for _ in range(rng.randint(0 if ip else 1, 20)))
         s = rng.choice(['', '', '-', '+']) + '0x' + ip + ('.' + fp_ if fp_ else '') + (rng.choice(['', 'p' + rng.choice(['', '+', '-']) + str(rng.randint(0, 400))]))
+        out.append(lit_hex(s))
+    for _ in range(4 * nrep):     # far outside the binary64 range
+        s = rng.choice(['', '-']) + '0x' + rng.choice(['1', '1.8', '0.01', 'f.ff']) + 'p' + rng.choice(['+', '-']) + str(rng.randint(1000, 3000))
         out.append(lit_hex(s))
     # rational / digits
     for p, q in [(1, 3), (-1, 3), (1, -3), (0, 5), (0, -5), (6, 4), (1, 0), (0, 0), (10 ** 30 + 1, 10 ** 29), (-7, 7)]:
